@@ -139,6 +139,18 @@ fn group_round<G: Grp>(rng: &mut StdRng, pool: &Pool, out: &mut Out, k: u64, foc
 pub fn run_group(a: &Args, out: &mut Out) {
     let pool = load_pool(&a.pool, "Fr");
     let mut rng = rng_from(a.seed, "group");
+    if a.focus == "mul" {
+        // sweep: every scalar whose Montgomery representation is a tiny integer or has a single non-zero limb
+        let (p1, p2) = (G1::one() * rand_fr(&mut rng), G2::one() * rand_fr(&mut rng));
+        for (i, v) in pool.lo.iter().enumerate() {
+            let s = Fr::from_slice(v).unwrap();
+            let ss = s.to_slice();
+            out.call("g.mul", json!({"G": "G1", "a": p1.jac(), "k": b(&ss)}), || { let r = p1 * s; outs! {"out" => r.jac(), "isz" => Value::Bool(r.is_zero_())} });
+            if i % 3 == 0 {
+                out.call("g.rmul", json!({"G": "G2", "a": p2.jac(), "k": b(&ss)}), || { let r = s * p2; outs! {"out" => r.jac(), "isz" => Value::Bool(r.is_zero_())} });
+            }
+        }
+    }
     let (mut k1, mut k2) = (0u64, 0u64);
     // share of G2 events is lower: the specification's Fq2 arithmetic is slower
     while !out.full() {
